@@ -89,19 +89,52 @@ pub trait ChainStore: Send + Sync + Sized {
         }
     }
 
+    /// Get the block with the given hash from the freezer, if it has been frozen.
+    ///
+    /// Once a main-chain block is frozen only its header stays in the key-value store; its
+    /// body, uncles, proposals and extension have to be read from the frozen copy.
+    fn get_frozen_block(&self, hash: &packed::Byte32) -> Option<packed::Block> {
+        let freezer = self.freezer()?;
+        let header = self.get_block_header(hash)?;
+        if header.number() == 0 || header.number() >= freezer.number() {
+            return None;
+        }
+        let raw_block = freezer.retrieve(header.number()).expect("block frozen")?;
+        let block = packed::BlockReader::from_compatible_slice(&raw_block)
+            .expect("checked data")
+            .to_entity();
+        // only main-chain blocks are frozen: do not answer for a side-chain block of that height
+        if &block.header().calc_header_hash() == hash {
+            Some(block)
+        } else {
+            None
+        }
+    }
+
     /// Get block body by block header hash
     fn get_block_body(&self, hash: &packed::Byte32) -> Vec<TransactionView> {
         let prefix = hash.as_slice();
-        self.get_iter(
-            COLUMN_BLOCK_BODY,
-            IteratorMode::From(prefix, Direction::Forward),
-        )
-        .take_while(|(key, _)| key.starts_with(prefix))
-        .map(|(_key, value)| {
-            let reader = packed::TransactionViewReader::from_slice_should_be_ok(value.as_ref());
-            Into::<TransactionView>::into(reader)
-        })
-        .collect()
+        let body: Vec<TransactionView> = self
+            .get_iter(
+                COLUMN_BLOCK_BODY,
+                IteratorMode::From(prefix, Direction::Forward),
+            )
+            .take_while(|(key, _)| key.starts_with(prefix))
+            .map(|(_key, value)| {
+                let reader = packed::TransactionViewReader::from_slice_should_be_ok(value.as_ref());
+                Into::<TransactionView>::into(reader)
+            })
+            .collect();
+        if body.is_empty()
+            && let Some(block) = self.get_frozen_block(hash)
+        {
+            return block
+                .transactions()
+                .into_iter()
+                .map(|tx| tx.into_view())
+                .collect();
+        }
+        body
     }
 
     /// Get unfrozen block from ky-store with given hash
@@ -165,6 +198,17 @@ pub trait ChainStore: Send + Sync + Sized {
                 reader.hash().to_entity()
             })
             .collect();
+        let ret = if ret.is_empty()
+            && let Some(block) = self.get_frozen_block(hash)
+        {
+            block
+                .transactions()
+                .into_iter()
+                .map(|tx| tx.calc_tx_hash())
+                .collect()
+        } else {
+            ret
+        };
 
         if let Some(cache) = self.cache() {
             cache.block_tx_hashes.lock().put(hash.clone(), ret.clone());
@@ -189,7 +233,8 @@ pub trait ChainStore: Send + Sync + Sized {
             .map(|slice| {
                 packed::ProposalShortIdVecReader::from_slice_should_be_ok(slice.as_ref())
                     .to_entity()
-            });
+            })
+            .or_else(|| self.get_frozen_block(hash).map(|block| block.proposals()));
 
         if let Some(cache) = self.cache() {
             ret.inspect(|data| {
@@ -208,10 +253,17 @@ pub trait ChainStore: Send + Sync + Sized {
             return Some(data.clone());
         };
 
-        let ret = self.get(COLUMN_BLOCK_UNCLE, hash.as_slice()).map(|slice| {
-            let reader = packed::UncleBlockVecViewReader::from_slice_should_be_ok(slice.as_ref());
-            Into::<UncleBlockVecView>::into(reader)
-        });
+        let ret = self
+            .get(COLUMN_BLOCK_UNCLE, hash.as_slice())
+            .map(|slice| {
+                let reader =
+                    packed::UncleBlockVecViewReader::from_slice_should_be_ok(slice.as_ref());
+                Into::<UncleBlockVecView>::into(reader)
+            })
+            .or_else(|| {
+                self.get_frozen_block(hash)
+                    .map(|block| block.into_view().uncles())
+            });
 
         if let Some(cache) = self.cache() {
             ret.inspect(|uncles| {
@@ -232,7 +284,11 @@ pub trait ChainStore: Send + Sync + Sized {
 
         let ret = self
             .get(COLUMN_BLOCK_EXTENSION, hash.as_slice())
-            .map(|slice| packed::BytesReader::from_slice_should_be_ok(slice.as_ref()).to_entity());
+            .map(|slice| packed::BytesReader::from_slice_should_be_ok(slice.as_ref()).to_entity())
+            .or_else(|| {
+                self.get_frozen_block(hash)
+                    .and_then(|block| block.extension())
+            });
 
         if let Some(cache) = self.cache() {
             cache.block_extensions.lock().put(hash.clone(), ret.clone());
@@ -465,10 +521,16 @@ pub trait ChainStore: Send + Sync + Sized {
         let key = packed::TransactionKey::new_builder()
             .block_hash(hash.to_owned())
             .build();
-        self.get(COLUMN_BLOCK_BODY, key.as_slice()).map(|slice| {
-            let reader = packed::TransactionViewReader::from_slice_should_be_ok(slice.as_ref());
-            Into::<TransactionView>::into(reader)
-        })
+        self.get(COLUMN_BLOCK_BODY, key.as_slice())
+            .map(|slice| {
+                let reader = packed::TransactionViewReader::from_slice_should_be_ok(slice.as_ref());
+                Into::<TransactionView>::into(reader)
+            })
+            .or_else(|| {
+                self.get_frozen_block(hash)
+                    .and_then(|block| block.transactions().get(0))
+                    .map(|tx| tx.into_view())
+            })
     }
 
     /// Gets latest built filter data block hash
@@ -491,6 +553,9 @@ pub trait ChainStore: Send + Sync + Sized {
 
     /// Gets block bytes by block hash
     fn get_packed_block(&self, hash: &packed::Byte32) -> Option<packed::Block> {
+        if let Some(block) = self.get_frozen_block(hash) {
+            return Some(block);
+        }
         let header = self
             .get(COLUMN_BLOCK_HEADER, hash.as_slice())
             .map(|slice| {
